@@ -112,6 +112,12 @@ def handle : DrvHandler := fun op args =>
       let k ← jNat? (← jField? j "k")
       let o : Outcome := { done := true, failed := false, errDelay := 0 }
       some (ok (Json.mkObj [("spinning", .bool (spinning c e l)), ("settles", .bool (settles c e o k l))]))
+  | "C09.sweep", [j] => do
+      let ds ← jArr? j
+      let outs ← ds.mapM (fun d => do
+        let rs ← (← jStrList? (← jField? d "reasons")).mapM reasonOf?
+        pure (Json.bool (sweepSpawns { Inst.fresh with reasons := rs })))
+      some (ok (.arr outs.toArray))
   | "C09.variant", [] => some (ok (Json.mkObj [("treeGuarded", .bool treeGuarded)]))
   | _, _ => none
 
